@@ -56,10 +56,63 @@ theorem ivsSub_sound {I J : Ivs} (h : ivsSub I J = true) (c : Nat) (hc : inIvs c
   rw [inIvs_append, hc] at this
   simpa using this.symm
 
-def classSub (G1 G2 : Grammar) (e1 e2 : Expr) : Bool :=
-  match charClass G1 8 e1, charClass G2 8 e2 with
-  | some I, some J => ivsSub I J
-  | _, _ => false
+/-- `charClass` over a lookup function (the kernel-friendly tables are trees, Abnf/RTree.lean) -/
+def charClassL (L : Nat → Option Expr) : Nat → Expr → Option Ivs
+  | 0, _ => none
+  | f + 1, e =>
+    match e with
+    | .range lo hi => some [(lo, hi)]
+    | .lit [c] true => some [(c, c)]
+    | .lit [c] false => some (caseClass c)
+    | .alt es _ =>
+      es.foldr (fun e acc => match charClassL L f e, acc with
+        | some x, some y => some (x ++ y)
+        | _, _ => none) (some [])
+    | .ref r =>
+      match L r with
+      | some d => charClassL L f d
+      | none => none
+    | _ => none
+
+theorem charClassL_eq (G : Grammar) (L : Nat → Option Expr) (hL : ∀ r, L r = defnOf G r) :
+    ∀ (f : Nat) (e : Expr), charClassL L f e = charClass G f e := by
+  intro f
+  induction f with
+  | zero => intro e; simp [charClassL, charClass]
+  | succ f ih =>
+    intro e
+    cases e with
+    | lit v cs =>
+      match v, cs with
+      | [], _ => simp [charClassL, charClass]
+      | [c], true => simp [charClassL, charClass]
+      | [c], false => simp [charClassL, charClass]
+      | _ :: _ :: _, _ => simp [charClassL, charClass]
+    | range lo hi => simp [charClassL, charClass]
+    | prose => simp [charClassL, charClass]
+    | cat es => simp [charClassL, charClass]
+    | rep c mn mx e => simp [charClassL, charClass]
+    | alt es first =>
+      simp only [charClassL, charClass]
+      congr 1
+      funext e acc
+      rw [ih e]
+      cases charClass G f e <;> cases acc <;> rfl
+    | ref r =>
+      simp only [charClassL, charClass, hL r, defnOf, Array.getElem?_toList]
+      cases G[r]? with
+      | none => rfl
+      | some info =>
+        simp only
+        cases info.defn with
+        | none => rfl
+        | some d => exact ih d
+
+/-- both sides are one-character classes: inclusion is decided by the interval sets (`none`: not applicable) -/
+def classSub (L1 L2 : Nat → Option Expr) (e1 e2 : Expr) : Option Bool :=
+  match charClassL L1 8 e1, charClassL L2 8 e2 with
+  | some I, some J => some (ivsSub I J)
+  | _, _ => none
 
 /-! The rules of the checker, each over an arbitrary recursive-call function `rec` (= `sub` with less fuel). -/
 
@@ -68,21 +121,21 @@ def rAltR (rec : Expr → Expr → Bool) (e1 e2 : Expr) : Bool :=
   | .alt bs _ => bs.any (fun b => rec e1 b)
   | _ => false
 
-def rPair (pairs : List (Nat × Nat)) (e1 e2 : Expr) : Bool :=
+def rPair (pairT : Nat → Nat → Bool) (e1 e2 : Expr) : Bool :=
   match e1, e2 with
-  | .ref r1, .ref r2 => pairs.contains (r1, r2)
+  | .ref r1, .ref r2 => pairT r1 r2
   | _, _ => false
 
-def rUnfoldL (G1 : Grammar) (rec : Expr → Expr → Bool) (e1 e2 : Expr) : Bool :=
+def rUnfoldL (L1 : Nat → Option Expr) (rec : Expr → Expr → Bool) (e1 e2 : Expr) : Bool :=
   match e1 with
-  | .ref r1 => (match defnOf G1 r1 with
+  | .ref r1 => (match L1 r1 with
     | some d => rec d e2
     | none => false)
   | _ => false
 
-def rUnfoldR (G2 : Grammar) (rec : Expr → Expr → Bool) (e1 e2 : Expr) : Bool :=
+def rUnfoldR (L2 : Nat → Option Expr) (rec : Expr → Expr → Bool) (e1 e2 : Expr) : Bool :=
   match e2 with
-  | .ref r2 => (match defnOf G2 r2 with
+  | .ref r2 => (match L2 r2 with
     | some d => rec e1 d
     | none => false)
   | _ => false
@@ -101,7 +154,8 @@ def rRep (rec : Expr → Expr → Bool) (e1 e2 : Expr) : Bool :=
 def catWalk (rec : Expr → Expr → Bool) : List Expr → List Expr → Bool
   | [], bs => bs.all (fun b => rec (.cat []) b)
   | a :: as', bs =>
-    (List.range (bs.length + 1)).any (fun t => rec a (mkCat (bs.take t)) &&
+    -- block sizes tried: 1 first (by far the commonest), then 0, then the rest
+    (1 :: 0 :: (List.range (bs.length + 1)).drop 2).any (fun t => rec a (mkCat (bs.take t)) &&
       (match bs.drop t with
         | .cat cs :: rest => rec (.cat as') (.cat (.cat cs :: rest))    -- a nested concatenation: let `rCat` flatten it
         | rest => catWalk rec as' rest))
@@ -145,25 +199,55 @@ def rCatRep (rec : Expr → Expr → Bool) (e1 e2 : Expr) : Bool :=
   | .cat as, .rep _ mn mx b => decide (mn ≤ as.length) && maxLe (some as.length) mx && as.all (fun a => rec a b)
   | _, _ => false
 
+/-- alternatives related position by position (tried first: the commonest case, and it avoids the failing comparisons of
+the general rule) -/
+def zipAll (rec : Expr → Expr → Bool) : List Expr → List Expr → Bool
+  | [], [] => true
+  | a :: as, b :: bs => rec a b && zipAll rec as bs
+  | _, _ => false
+
+theorem zipAll_sound (rec : Expr → Expr → Bool) : ∀ (as bs : List Expr), zipAll rec as bs = true →
+    ∀ a ∈ as, ∃ b ∈ bs, rec a b = true
+  | [], _, _, a, ha => by cases ha
+  | _ :: _, [], h, _, _ => by simp [zipAll] at h
+  | x :: as, y :: bs, h, a, ha => by
+    simp only [zipAll, Bool.and_eq_true] at h
+    rcases List.mem_cons.mp ha with h' | h'
+    · exact ⟨y, List.mem_cons_self, by rw [h']; exact h.1⟩
+    · obtain ⟨b, hb, hr⟩ := zipAll_sound rec as bs h.2 a h'
+      exact ⟨b, List.mem_cons_of_mem _ hb, hr⟩
+
 /-- the rules that do not need the bisimulation hypothesis -/
-def rules (G1 G2 : Grammar) (rec : Expr → Expr → Bool) (e1 e2 : Expr) : Bool :=
-  rAltR rec e1 e2 || rUnfoldL G1 rec e1 e2 || rUnfoldR G2 rec e1 e2 || rLit e1 e2 || rRep rec e1 e2 ||
+def rules (L1 L2 : Nat → Option Expr) (rec : Expr → Expr → Bool) (e1 e2 : Expr) : Bool :=
+  rAltR rec e1 e2 || rUnfoldL L1 rec e1 e2 || rUnfoldR L2 rec e1 e2 || rLit e1 e2 || rRep rec e1 e2 ||
   rCat rec e1 e2 || rSingleR rec e1 e2 || rSingleL rec e1 e2 || rOnceL rec e1 e2 || rOnceR rec e1 e2 ||
   rLitChars rec e1 e2 || rCatRep rec e1 e2
 
-def sub (G1 G2 : Grammar) (pairs : List (Nat × Nat)) : Nat → Expr → Expr → Bool
+/-- The checker.  `L1`, `L2`: definition look-up of the two tables; `pairT r1 r2`: is the pair a bisimulation hypothesis. -/
+def sub (L1 L2 : Nat → Option Expr) (pairT : Nat → Nat → Bool) : Nat → Expr → Expr → Bool
   | 0, _, _ => false
   | f + 1, e1, e2 =>
-    classSub G1 G2 e1 e2 ||
-    (match e1 with
-      | .alt as _ => as.all (fun a => sub G1 G2 pairs f a e2)
-      | _ => rPair pairs e1 e2 || rules G1 G2 (sub G1 G2 pairs f) e1 e2)
+    rPair pairT e1 e2 ||
+    (match classSub L1 L2 e1 e2 with
+      | some b => b            -- two character classes: decided (also negatively - no search)
+      | none =>
+        match e1 with
+        | .alt as _ =>
+          (match e2 with
+            | .alt bs _ => zipAll (sub L1 L2 pairT f) as bs
+            | _ => false) ||
+          as.all (fun a => sub L1 L2 pairT f a e2)
+        | _ => rules L1 L2 (sub L1 L2 pairT f) e1 e2)
 
 /-- every pair's definitions are related (what the kernel evaluates for a concrete pair list) -/
-def pairsOk (G1 G2 : Grammar) (pairs : List (Nat × Nat)) (fuel : Nat) : Bool :=
-  pairs.all (fun p => match defnOf G1 p.1, defnOf G2 p.2 with
-    | some d1, some d2 => sub G1 G2 pairs fuel d1 d2
+def pairsOkL (L1 L2 : Nat → Option Expr) (pairT : Nat → Nat → Bool) (pairs : List (Nat × Nat)) (fuel : Nat) : Bool :=
+  pairs.all (fun p => match L1 p.1, L2 p.2 with
+    | some d1, some d2 => sub L1 L2 pairT fuel d1 d2
     | _, _ => false)
+
+/-- the plain instance: look-ups into the grammar arrays, pairs as a list -/
+def pairsOk (G1 G2 : Grammar) (pairs : List (Nat × Nat)) (fuel : Nat) : Bool :=
+  pairsOkL (defnOf G1) (defnOf G2) (fun a b => pairs.contains (a, b)) pairs fuel
 
 end Abnf
 
@@ -309,9 +393,11 @@ theorem M_rep_of_iter {G : Grammar} {s : Src} {cid mn : Nat} {mx : Option Nat} {
     M G s (.rep cid mn mx b) i j := by
   obtain ⟨ns, hd⟩ := h; exact ⟨ns, Derives.rep h1 h2 hd⟩
 
-theorem classSub_sound {G1 G2 : Grammar} {s : Src} {h : Nat} {e1 e2 : Expr} {i j : Nat}
-    (hc : classSub G1 G2 e1 e2 = true) (hm : MH G1 s h e1 i j) : M G2 s e2 i j := by
+theorem classSub_sound {G1 G2 : Grammar} {L1 L2 : Nat → Option Expr} (hL1 : ∀ r, L1 r = defnOf G1 r)
+    (hL2 : ∀ r, L2 r = defnOf G2 r) {s : Src} {h : Nat} {e1 e2 : Expr} {i j : Nat}
+    (hc : classSub L1 L2 e1 e2 = some true) (hm : MH G1 s h e1 i j) : M G2 s e2 i j := by
   unfold classSub at hc
+  rw [charClassL_eq G1 L1 hL1, charClassL_eq G2 L2 hL2] at hc
   cases h1 : charClass G1 8 e1 with
   | none => rw [h1] at hc; cases hc
   | some I =>
@@ -319,6 +405,7 @@ theorem classSub_sound {G1 G2 : Grammar} {s : Src} {h : Nat} {e1 e2 : Expr} {i j
     | none => rw [h1, h2] at hc; cases hc
     | some J =>
       rw [h1, h2] at hc
+      simp only [Option.some.injEq] at hc
       have c1 := charClass_sound G1 8 e1 I h1 s i j
       have c2 := charClass_sound G2 8 e2 J h2 s i j
       obtain ⟨hj, c, hcs, hin⟩ := c1.mp (M_of_MH hm)
@@ -333,7 +420,7 @@ def Incl (G1 G2 : Grammar) (s : Src) (h : Nat) (e1 e2 : Expr) : Prop :=
   ∀ i j, MH G1 s h e1 i j → M G2 s e2 i j
 
 section rules
-variable {G1 G2 : Grammar} {s : Src} {h : Nat} {rec : Expr → Expr → Bool}
+variable {G1 G2 : Grammar} {L1 L2 : Nat → Option Expr} {s : Src} {h : Nat} {rec : Expr → Expr → Bool}
 
 theorem rAltR_sound (hrec : ∀ a b, rec a b = true → Incl G1 G2 s h a b) {e1 e2 : Expr}
     (hr : rAltR rec e1 e2 = true) : Incl G1 G2 s h e1 e2 := by
@@ -344,13 +431,14 @@ theorem rAltR_sound (hrec : ∀ a b, rec a b = true → Incl G1 G2 s h a b) {e1 
     exact M_alt_of_mem hb (hrec _ _ hsub i j hm)
   · cases hr
 
-theorem rUnfoldL_sound (hrec : ∀ a b, rec a b = true → Incl G1 G2 s h a b) {e1 e2 : Expr}
-    (hr : rUnfoldL G1 rec e1 e2 = true) : Incl G1 G2 s h e1 e2 := by
+theorem rUnfoldL_sound (hL1 : ∀ r, L1 r = defnOf G1 r) (hrec : ∀ a b, rec a b = true → Incl G1 G2 s h a b) {e1 e2 : Expr}
+    (hr : rUnfoldL L1 rec e1 e2 = true) : Incl G1 G2 s h e1 e2 := by
   unfold rUnfoldL at hr
   split at hr
   · rename_i r1
     split at hr
     · rename_i d hd
+      rw [hL1] at hd
       intro i j hm
       obtain ⟨h', info, d', hh, hg, hdef, hmd⟩ := hm.ref_inv
       obtain ⟨info2, hg2, hdef2⟩ := defnOf_eq hd
@@ -360,12 +448,13 @@ theorem rUnfoldL_sound (hrec : ∀ a b, rec a b = true → Incl G1 G2 s h a b) {
     · cases hr
   · cases hr
 
-theorem rUnfoldR_sound (hrec : ∀ a b, rec a b = true → Incl G1 G2 s h a b) {e1 e2 : Expr}
-    (hr : rUnfoldR G2 rec e1 e2 = true) : Incl G1 G2 s h e1 e2 := by
+theorem rUnfoldR_sound (hL2 : ∀ r, L2 r = defnOf G2 r) (hrec : ∀ a b, rec a b = true → Incl G1 G2 s h a b) {e1 e2 : Expr}
+    (hr : rUnfoldR L2 rec e1 e2 = true) : Incl G1 G2 s h e1 e2 := by
   unfold rUnfoldR at hr
   split at hr
   · split at hr
     · rename_i d hd
+      rw [hL2] at hd
       intro i j hm
       exact M_ref_of_defn hd (hrec _ _ hr i j hm)
     · cases hr
@@ -537,13 +626,14 @@ theorem rCatRep_sound (hrec : ∀ a b, rec a b = true → Incl G1 G2 s h a b) {e
     exact cat_all_transfer as (fun a ha => hrec _ _ (List.all_eq_true.mp hall a ha)) i j hm
   · cases hr
 
-theorem rules_sound (hrec : ∀ a b, rec a b = true → Incl G1 G2 s h a b) {e1 e2 : Expr}
-    (hr : rules G1 G2 rec e1 e2 = true) : Incl G1 G2 s h e1 e2 := by
+theorem rules_sound (hL1 : ∀ r, L1 r = defnOf G1 r) (hL2 : ∀ r, L2 r = defnOf G2 r)
+    (hrec : ∀ a b, rec a b = true → Incl G1 G2 s h a b) {e1 e2 : Expr}
+    (hr : rules L1 L2 rec e1 e2 = true) : Incl G1 G2 s h e1 e2 := by
   simp only [rules, Bool.or_eq_true] at hr
   rcases hr with ((((((((((hr | hr) | hr) | hr) | hr) | hr) | hr) | hr) | hr) | hr) | hr) | hr
   · exact rAltR_sound hrec hr
-  · exact rUnfoldL_sound hrec hr
-  · exact rUnfoldR_sound hrec hr
+  · exact rUnfoldL_sound hL1 hrec hr
+  · exact rUnfoldR_sound hL2 hrec hr
   · exact rLit_sound hr
   · exact rRep_sound hrec hr
   · exact rCat_sound hrec hr
@@ -558,83 +648,108 @@ end rules
 
 /-- **Soundness of the inclusion checker** (bisimulation up to the checker's rules).  If every pair's definitions
 are related with fuel `F`, then whatever `sub` accepts is a language inclusion, on every source and span. -/
-theorem sub_sound (G1 G2 : Grammar) (pairs : List (Nat × Nat)) (F : Nat)
-    (hp : pairsOk G1 G2 pairs F = true) (s : Src) :
-    ∀ (h f : Nat) (e1 e2 : Expr), sub G1 G2 pairs f e1 e2 = true → Incl G1 G2 s h e1 e2 := by
+theorem sub_sound (G1 G2 : Grammar) (L1 L2 : Nat → Option Expr) (hL1 : ∀ r, L1 r = defnOf G1 r) (hL2 : ∀ r, L2 r = defnOf G2 r)
+    (pairT : Nat → Nat → Bool) (pairs : List (Nat × Nat)) (hpair : ∀ a b, pairT a b = true → (a, b) ∈ pairs) (F : Nat)
+    (hp : pairsOkL L1 L2 pairT pairs F = true) (s : Src) :
+    ∀ (h f : Nat) (e1 e2 : Expr), sub L1 L2 pairT f e1 e2 = true → Incl G1 G2 s h e1 e2 := by
+  -- the paired-reference rule, given the claim one reference level lower
+  have pairRule : ∀ (h : Nat), (∀ f e1 e2, sub L1 L2 pairT f e1 e2 = true → Incl G1 G2 s h e1 e2) →
+      ∀ e1 e2, rPair pairT e1 e2 = true → Incl G1 G2 s (h + 1) e1 e2 := by
+    intro h ihh e1 e2 hs
+    unfold rPair at hs
+    split at hs
+    · rename_i r1 r2
+      have hmem : (r1, r2) ∈ pairs := hpair r1 r2 hs
+      have hpp := List.all_eq_true.mp hp (r1, r2) hmem
+      simp only at hpp
+      split at hpp
+      · rename_i d1 d2 hd1 hd2
+        rw [hL1] at hd1
+        rw [hL2] at hd2
+        intro i j hm
+        obtain ⟨h', info, d', hh, hg, hdef, hmd⟩ := hm.ref_inv
+        obtain ⟨info2, hg2, hdef2⟩ := defnOf_eq hd1
+        rw [hg] at hg2; cases hg2
+        rw [hdef] at hdef2; cases hdef2
+        have hh' : h' = h := by omega
+        subst hh'
+        exact M_ref_of_defn hd2 (ihh F _ d2 hpp i j hmd)
+      · cases hpp
+    · cases hs
+  -- everything else, at a fixed height, by induction on the fuel
+  have step : ∀ (h : Nat), (∀ e1 e2, rPair pairT e1 e2 = true → Incl G1 G2 s h e1 e2) →
+      ∀ f e1 e2, sub L1 L2 pairT f e1 e2 = true → Incl G1 G2 s h e1 e2 := by
+    intro h hpr f
+    induction f with
+    | zero => intro e1 e2 hs; simp [sub] at hs
+    | succ f ih =>
+      intro e1 e2 hs
+      simp only [sub, Bool.or_eq_true] at hs
+      rcases hs with hs | hs
+      · exact hpr e1 e2 hs
+      · split at hs
+        · rename_i b hcl
+          subst hs
+          intro i j hm; exact classSub_sound hL1 hL2 hcl hm
+        · split at hs
+          · rename_i as first _
+            simp only [Bool.or_eq_true] at hs
+            intro i j hm
+            obtain ⟨a, ha, hma⟩ := hm.alt_inv
+            rcases hs with hs | hs
+            · split at hs
+              · rename_i bs first2 _
+                obtain ⟨b, hb, hr⟩ := zipAll_sound _ as bs hs a ha
+                exact M_alt_of_mem hb (ih a b hr i j hma)
+              · cases hs
+            · exact ih a e2 (List.all_eq_true.mp hs a ha) i j hma
+          · exact rules_sound hL1 hL2 ih hs
   intro h
   induction h with
   | zero =>
-    intro f
-    induction f with
-    | zero => intro e1 e2 hs; simp [sub] at hs
-    | succ f ih =>
-      intro e1 e2 hs
-      simp only [sub, Bool.or_eq_true] at hs
-      rcases hs with hs | hs
-      · intro i j hm; exact classSub_sound hs hm
-      · split at hs
-        · rename_i as first
-          intro i j hm
-          obtain ⟨a, ha, hma⟩ := hm.alt_inv
-          exact ih a e2 (List.all_eq_true.mp hs a ha) i j hma
-        · simp only [Bool.or_eq_true] at hs
-          rcases hs with hs | hs
-          · unfold rPair at hs
-            split at hs
-            · intro i j hm; cases hm
-            · cases hs
-          · exact rules_sound ih hs
-  | succ h ihh =>
-    intro f
-    induction f with
-    | zero => intro e1 e2 hs; simp [sub] at hs
-    | succ f ih =>
-      intro e1 e2 hs
-      simp only [sub, Bool.or_eq_true] at hs
-      rcases hs with hs | hs
-      · intro i j hm; exact classSub_sound hs hm
-      · split at hs
-        · rename_i as first
-          intro i j hm
-          obtain ⟨a, ha, hma⟩ := hm.alt_inv
-          exact ih a e2 (List.all_eq_true.mp hs a ha) i j hma
-        · simp only [Bool.or_eq_true] at hs
-          rcases hs with hs | hs
-          · unfold rPair at hs
-            split at hs
-            · rename_i r1 r2 _
-              have hmem : (r1, r2) ∈ pairs := by simpa using hs
-              have hpp := List.all_eq_true.mp hp (r1, r2) hmem
-              simp only at hpp
-              split at hpp
-              · rename_i d1 d2 hd1 hd2
-                intro i j hm
-                obtain ⟨h', info, d', hh, hg, hdef, hmd⟩ := hm.ref_inv
-                obtain ⟨info2, hg2, hdef2⟩ := defnOf_eq hd1
-                rw [hg] at hg2; cases hg2
-                rw [hdef] at hdef2; cases hdef2
-                have hh' : h' = h := by omega
-                subst hh'
-                exact M_ref_of_defn hd2 (ihh F _ d2 hpp i j hmd)
-              · cases hpp
-            · cases hs
-          · exact rules_sound ih hs
+    refine step 0 ?_
+    intro e1 e2 hs
+    unfold rPair at hs
+    split at hs
+    · intro i j hm; cases hm
+    · cases hs
+  | succ h ihh => exact step (h + 1) (pairRule h ihh)
 
 /-- inclusion at the level of `M` -/
-theorem sub_incl {G1 G2 : Grammar} {pairs : List (Nat × Nat)} {F : Nat} (hp : pairsOk G1 G2 pairs F = true)
-    {f : Nat} {e1 e2 : Expr} (hs : sub G1 G2 pairs f e1 e2 = true) (s : Src) (i j : Nat)
+theorem sub_incl {G1 G2 : Grammar} {L1 L2 : Nat → Option Expr} (hL1 : ∀ r, L1 r = defnOf G1 r) (hL2 : ∀ r, L2 r = defnOf G2 r)
+    {pairT : Nat → Nat → Bool} {pairs : List (Nat × Nat)} (hpair : ∀ a b, pairT a b = true → (a, b) ∈ pairs) {F : Nat}
+    (hp : pairsOkL L1 L2 pairT pairs F = true)
+    {f : Nat} {e1 e2 : Expr} (hs : sub L1 L2 pairT f e1 e2 = true) (s : Src) (i j : Nat)
     (hm : M G1 s e1 i j) : M G2 s e2 i j := by
   obtain ⟨h, hmh⟩ := M_iff_MH.mp hm
-  exact sub_sound G1 G2 pairs F hp s h f e1 e2 hs i j hmh
+  exact sub_sound G1 G2 L1 L2 hL1 hL2 pairT pairs hpair F hp s h f e1 e2 hs i j hmh
 
 /-- paired rules: inclusion of the rules themselves -/
-theorem pair_incl {G1 G2 : Grammar} {pairs : List (Nat × Nat)} {F : Nat} (hp : pairsOk G1 G2 pairs F = true)
+theorem pair_inclL {G1 G2 : Grammar} {L1 L2 : Nat → Option Expr} (hL1 : ∀ r, L1 r = defnOf G1 r) (hL2 : ∀ r, L2 r = defnOf G2 r)
+    {pairT : Nat → Nat → Bool} {pairs : List (Nat × Nat)} (hpair : ∀ a b, pairT a b = true → (a, b) ∈ pairs) {F : Nat}
+    (hp : pairsOkL L1 L2 pairT pairs F = true)
     {r1 r2 : Nat} (hmem : (r1, r2) ∈ pairs) (s : Src) (i j : Nat)
     (hm : M G1 s (.ref r1) i j) : M G2 s (.ref r2) i j := by
-  have hs : sub G1 G2 pairs 1 (.ref r1) (.ref r2) = true := by
-    have : pairs.contains (r1, r2) = true := by simpa using hmem
-    simp [sub, rPair, hmem]
-  exact sub_incl hp hs s i j hm
+  -- through the definitions (the pair test itself may be incomplete)
+  have hpp := List.all_eq_true.mp hp (r1, r2) hmem
+  simp only at hpp
+  split at hpp
+  · rename_i d1 d2 hd1 hd2
+    rw [hL1] at hd1
+    rw [hL2] at hd2
+    obtain ⟨ns, hder⟩ := hm
+    cases hder with
+    | ref hg hdef hsub =>
+      obtain ⟨info2, hg2, hdef2⟩ := defnOf_eq hd1
+      rw [hg] at hg2; cases hg2
+      rw [hdef] at hdef2; cases hdef2
+      exact M_ref_of_defn hd2 (sub_incl hL1 hL2 hpair hp hpp s i j ⟨_, hsub⟩)
+  · cases hpp
+
+theorem pair_incl {G1 G2 : Grammar} {pairs : List (Nat × Nat)} {F : Nat} (hp : pairsOk G1 G2 pairs F = true)
+    {r1 r2 : Nat} (hmem : (r1, r2) ∈ pairs) (s : Src) (i j : Nat)
+    (hm : M G1 s (.ref r1) i j) : M G2 s (.ref r2) i j :=
+  pair_inclL (fun _ => rfl) (fun _ => rfl) (fun a b h => by simpa using h) hp hmem s i j hm
 
 def swapPairs (pairs : List (Nat × Nat)) : List (Nat × Nat) := pairs.map (fun p => (p.2, p.1))
 
